@@ -35,6 +35,9 @@ SP(c, r, p, pre) == SPK(c, r, p, pre, "ascii")
 S(c, r, p) == SP(c, r, p, "idle")
 RvK(c, r, k) == [dir |-> "recv", code |-> c, rlen |-> r, exp |-> RecvOutcome(c, r), peer |-> "none", pre |-> "idle", rkind |-> k]
 Rv(c, r)   == RvK(c, r, "ascii")
+(* the peer sends its Close frame and is gone (it does not wait for the echo, every write to it fails): what the frame said is  *)
+(* reported all the same -- whether the echo can be delivered does not change what was received                                  *)
+RvGone(c, r) == [Rv(c, r) EXCEPT !.peer = "gone"]
 (* codes -1..65536 as a sequence (no set normalisation: 200k rows in a few seconds) *)
 CodeAt(i) == i - 2
 SendAll0   == [i \in 1..65538 |-> S(CodeAt(i), 0, "echo")]
@@ -50,7 +53,8 @@ Small == SetToSeq(
   \cup { RvK(c, r, "badutf8") : c \in {1000, 3000, 999}, r \in {1, 2, 61, 122, 123} }
   \cup { SP(c, r, "echo", pre) : c \in {1000, 1001, 3000, 4999, 1005, 1006}, r \in {0, 3, 123}, pre \in LocalStates \ {"idle"} }
   \cup { Rv(c, r) : c \in (BoundaryCodes \cap (0..65535)), r \in {1, 122, 123} }
-  \cup { Rv(0, r) : r \in {-1, -2} })
+  \cup { RvGone(c, r) : c \in (BoundaryCodes \cap (0..65535)), r \in {0, 1, 123} }
+  \cup { Rv(0, r) : r \in {-1, -2} } \cup { RvGone(0, -1) })
 Rows == SendAll0 \o SendAll123 \o RecvAll \o Small
 ValidCount == Cardinality({c \in 0..65535 : ValidWireCode(c)})
 ASSUME PrintT(<<"rows", Len(Rows), "valid codes", ValidCount>>)
